@@ -243,6 +243,13 @@ func properties() map[string]*Property {
 		},
 		Subset: "per-call resource contracts on the ghost allocation counter: in the four stack machines every allocation event (the temporary make and the append growth of the stack) requests at most 16*p+1024 bytes where p is the position reached (per event; that the events of one call add up to a linear total is the geometric-growth argument M-amort, not machine-checked), scalar readers and Decode functions a constant, string functions a bound in the destination size and the bytes consumed. Three sites violate their bound on the pinned tree and are recorded as known findings F2, F3, F4 (replayed on the real code: /verif/findings/c20_findings_test.go)",
 	}
+	ps["C04"] = &Property{ID: "C04", Level: "proof",
+		Jobs:  nil,
+		Extra: []string{"fp-tables", "fp-equiv"},
+		Assume: []string{
+			"A-strconv: Go 1.23.5 strconv.ParseFloat is correctly rounded (the property names it as the oracle); the reference is the verbatim copy of eisel_lemire.go / decimal.go / atof.go under /verif/ref/strconv (SHA256SUMS checked against GOROOT when present)",
+		},
+	}
 	ps["C14"] = &Property{ID: "C14", Level: "proof",
 		Jobs:  relJobs("skipValue", "skipValueFast", "handleArrayValues", "handleObjectValues", "SkipValue", "SkipValueFast", "Valid", "HandleArrayValues", "HandleObjectValues"),
 		Kinds: map[string]bool{"rel": true, "inv-init": true, "inv-preserved": true, "bounds": true, "slice": true, "requires@call": true},
